@@ -251,6 +251,8 @@ def histories(draw):
     c = draw(geom())
     c["ow"], c["oh"] = draw(st.integers(1, 60)), draw(st.integers(1, 60))  # rendered: keep pixels small
     c["ops"] = draw(st.lists(op(), min_size=2, max_size=12))
+    # a second image of the same class, left at its default (dynamic) size, is rendered alongside at every "render"
+    c["companion"] = draw(st.booleans())
     return c
 
 
@@ -260,6 +262,7 @@ def check_history(c, rec):
     S = I.Size
     cur = dict(c)  # current configuration
     model = ("dynamic", "FIT")  # constructor default
+    companion = make(c) if c.get("companion") else None
     changed_after_fixed = False
     kinds = []
     for o in c["ops"]:
@@ -330,6 +333,25 @@ def check_history(c, rec):
                     raise Violation(f"render of size {(W, H)} has {out.count(chr(10)) + 1} lines", {"kind": "render_lines"})
             if image.size is not before and image.size != before:
                 raise Violation(f"rendering changed the size setting {before!r} -> {image.size!r}", {"kind": "size_changed"})
+            if companion is not None:
+                # the companion's render has its own rendered size, whatever was rendered before it and under whichever
+                # configuration; and rendering it changes nothing about the first image (invariant below)
+                CW, CH = lib(lambda: companion.rendered_size, "rendered_size")
+                if CW * CH <= 4000 and CW * (cur["cell"] or [1, 2])[0] * CH * (cur["cell"] or [1, 2])[1] <= 400000:
+                    out = lib(lambda: str(companion), "str(companion image)")
+                    if out.count("\n") != CH - 1:
+                        raise Violation(f"render of a second {c['family']} image whose rendered_size is {(CW, CH)} has "
+                                        f"{out.count(chr(10)) + 1} lines (ops {kinds})", {"kind": "render_lines", "companion": True})
+                    if c["family"] == "block":
+                        import re
+
+                        widths = {len(re.sub("\x1b\\[[0-9;]*m", "", ln)) for ln in out.split("\n")}
+                        if widths != {CW}:
+                            raise Violation(f"render of a second block image whose rendered_size is {(CW, CH)} has lines of "
+                                            f"{sorted(widths)} columns (ops {kinds})", {"kind": "render_width", "companion": True})
+                if companion.size is not S.FIT:
+                    raise Violation(f"the second image's default size setting became {companion.size!r}", {"kind": "dynamic_changed"})
+                rec.label("companion_rendered")
         # invariant after every op
         g = R.Geometry(c["family"], c["ow"], c["oh"], cur["cell"], cur["ratio"])
         if model[0] == "fixed":
@@ -353,6 +375,8 @@ def check_history(c, rec):
     if changed_after_fixed or "assign_size_enum" in kinds:
         rec.nontriv([c["family"], kinds])
     image.close()
+    if companion is not None:
+        companion.close()
 
 
 # ------------------------------------------------------------------------------ urwid rows
